@@ -587,6 +587,59 @@ def api_sweep(rep, rng, name, D, base, A, K, Q, ftab, tier_, bad_entries):
 
 
 # ======================================================================================================
+# (f) def_mpf_constant itself against its model, on synthetic fixed-point functions
+# ======================================================================================================
+
+def defconst_cases(rng, n):
+    """(v, prec, mode): boundary-directed fixed-point values -- 20+ zero guard bits (where the `+1` of the upward modes decides
+    the side of the bound), exact ties, all-ones (carry into the next binade), powers of two, short values, random"""
+    out = []
+    for i in range(n):
+        p = rng.choice([1, 2, 3, 10, 24, 53, rng.randint(1, 200)])
+        wp = p + 20
+        bl = max(1, wp + rng.choice([0, 0, 0, 1, 2, -1, -5, -19, -20, -21, -rng.randint(0, wp)]))      # bit length of v
+        kind = rng.choice(["rand", "zeros", "tie", "ones", "pow2", "zeros1", "rand"])
+        top = rng.getrandbits(bl) | (1 << (bl - 1))
+        low = max(0, bl - p)
+        if kind == "zeros" and low: v = (top >> low) << low
+        elif kind == "zeros1" and low: v = ((top >> low) << low) + rng.choice([1, 2, (1 << low) - 1])
+        elif kind == "tie" and low: v = ((top >> low) << low) | (1 << (low - 1))
+        elif kind == "ones": v = (1 << bl) - 1
+        elif kind == "pow2": v = 1 << (bl - 1)
+        else: v = top
+        out.append((v, p, rng.choice(MODES)))
+    return out
+
+
+def defconst_correspondence(rep, rng, tier_, rundir):
+    from mpmath.libmp import libelefun
+    cases = defconst_cases(rng, 400 if tier_ == "quick" else 3000)
+    rows = []; bad = 0
+    for v, p, r in cases:
+        try:
+            t = tuple(int(x) for x in libelefun.def_mpf_constant(lambda wp, _v=v: _v)(p, r))
+        except Exception as ex:
+            t = ("raised", repr(ex)[:60])
+        e = mpf_const_v_model(v, p, r)
+        if t != e:
+            bad += 1
+            if bad <= 3:
+                rep.violation("C17 def_mpf_constant: result for a fixed-point value v at prec %d rounding %r differs from the verified model "
+                              "(for the upward modes the model adds one unit so that the bound lies above every c in (v, v+1) 2^-wp)" % (p, r),
+                              {"fn": "def_mpf_constant", "regime": "model-correspondence", "v": v, "prec": p, "rounding": r,
+                               "got": [small(x) if isinstance(x, int) else x for x in t], "expected": [small(x) for x in e]})
+        else:
+            rows.append((v, p, r, t))
+    vf = VFile(os.path.join(rundir, "D_defconst.v"), HDR_S)
+    vf.add("cases", "Definition cases : list (Z * Z * rnd * mpf) := [%s]." % ";\n ".join(
+        "(%s,%d,%s,Mpf %d %s (%d) %d)" % (zl(v), p, RND_COQ[r], t[0], zl(t[1]), t[2], t[3]) for v, p, r, t in rows), "def")
+    vf.add("defconst_live", "Lemma defconst_live : forallb (fun c => let '(v, p, r, t) := c in mpf_eqb (mpf_const_v v p r) t) cases = true.\n"
+                            "Proof. vm_compute; reflexivity. Qed.")
+    vf.write()
+    return vf, {"cases": len(cases), "agree_with_mirror": len(rows), "mismatch": bad}
+
+
+# ======================================================================================================
 # (e) the seven constants without a formal definition
 # ======================================================================================================
 
@@ -711,6 +764,10 @@ def run(rep, tier_, rng):
         st, smp = api_sweep(rep, rng, name, D, base, A, K, Q, tabs[base], tier_, mirrors[name]["bad_entries"])
         api_stats[name] = st; api_samples[name] = smp
 
+    # ---- (f) def_mpf_constant against its model on synthetic fixed-point values
+    Dfile, dstats = defconst_correspondence(rep, rng, tier_, rundir)
+    Dfut = pool.submit(coqc, Dfile.path, tmo)
+
     # ---- sample files (Coq evaluates the model on the recorded histories)
     Sfiles = {}; Sfut = {}
     for name, cterm, D, base in ELEM:
@@ -762,6 +819,14 @@ def run(rep, tier_, rng):
             rep.violation("C17 %s: the Coq model evaluated by vm_compute disagrees with a recorded live trace/tuple (%s) although the "
                           "Python mirror agreed" % (name, badl),
                           {"theorem": "S_%s.v: %s" % (name, badl), "log": r["out"][-1500:]}, no_input=True)
+    rD = Dfut.result(); cmds.append(rD["cmd"])
+    obligations += 1
+    okl, badl = Dfile.classify(rD)
+    discharged += len(okl)
+    dstats["coq_checked"] = badl is None
+    if badl is not None and not dstats["mismatch"]:
+        rep.violation("C17 def_mpf_constant: the Coq model evaluated by vm_compute disagrees with live results although the Python mirror agreed",
+                      {"theorem": "D_defconst.v: defconst_live", "log": rD["out"][-1500:]}, no_input=True)
     cons = {}
     for name in oth:
         vf = Ofiles[name]; r = Ofut[name].result(); cmds.append(r["cmd"])
@@ -786,7 +851,7 @@ def run(rep, tier_, rng):
         rep.violation("C17: unexpected axioms under the per-run theorems", {"theorem": "Print Assumptions", "axioms": bad_run}, no_input=True)
     prim = sorted(a for a in run_axioms if a.startswith(("Uint63.", "PrimInt63.", "PrimFloat.", "FloatAxioms.", "Sint63.")))
 
-    evaluations = sum(s["calls"] + s["iv_checks"] + s["direct_requests"] + s["targeted_bad_entries"] for s in api_stats.values()) \
+    evaluations = dstats["cases"] + sum(s["calls"] + s["iv_checks"] + s["direct_requests"] + s["targeted_bad_entries"] for s in api_stats.values()) \
         + sum(s["requests"] for s in corr_stats.values()) + sum(len(t) for t in tabs.values()) + sum(o["evaluations"] for o in obs.values())
     distinct = sum(len(t) for t in tabs.values()) + 5 * P * len(ELEM)
     samples = []
@@ -821,7 +886,7 @@ def run(rep, tier_, rng):
         "proved_this_run": proved_theorems,
         "static_theorems": ["memo_inv", "memo_served", "memo_history_independent", "encl_floor", "encl_frac", "def_constant_round",
                             "def_constant_brackets", "const_all_histories", "const_brackets", "memo_consistent"],
-        "per_constant": per_const, "memo_correspondence": corr_stats, "api": api_stats,
+        "per_constant": per_const, "memo_correspondence": corr_stats, "api": api_stats, "def_mpf_constant_correspondence": dstats,
         "other_seven": cons, "table_read_wall_s": round(t_tab, 1), "wall_s": round(time.time() - t0, 1), "run_dir": rundir,
     }
     rep.assumptions = list(ASSUMPTIONS)
@@ -893,6 +958,23 @@ def replay(rep, path):
     name = fn.split(".")[-1].replace("_fixed", "")
     cov = {"obligations": 0, "discharged": 0, "checker_cmd": "", "trusted_base": ["see ./check C17"], "evaluations": 1, "distinct_nontrivial": 0,
            "rule": "replay of one recorded case", "samples": [r]}
+    if r.get("regime") == "model-correspondence" and fn == "def_mpf_constant":
+        from mpmath.libmp import libelefun
+        v, p, md = int(r["v"]), int(r["prec"]), r["rounding"]
+        t = tuple(int(x) for x in libelefun.def_mpf_constant(lambda wp: v)(p, md))
+        e = mpf_const_v_model(v, p, md)
+        rundir = os.path.join(RUN_ROOT, "replay"); os.makedirs(rundir, exist_ok=True)
+        vf = VFile(os.path.join(rundir, "D_replay.v"), HDR_S)
+        vf.add("model", "Lemma model : mpf_eqb (mpf_const_v %s %d %s) (Mpf %d %s (%d) %d) = true.\nProof. vm_compute; reflexivity. Qed."
+               % (zl(v), p, RND_COQ[md], e[0], zl(e[1]), e[2], e[3]))
+        vf.write(); rc = coqc(vf.path, 300)
+        cov.update(obligations=1, discharged=int(rc["rc"] == 0), checker_cmd=rc["cmd"])
+        if rc["rc"] != 0:
+            rep.violation("C17 replay: mirror and Coq model of def_mpf_constant disagree", {"theorem": "D_replay.v", "log": rc["out"][-800:]}, no_input=True)
+        elif t != e:
+            rep.violation("C17 def_mpf_constant: result for a fixed-point value v at prec %d rounding %r differs from the verified model" % (p, md), r)
+        rep.coverage = cov
+        return
     ent = next((e for e in ELEM if e[0] == name), None)
     if ent is None or r.get("regime") == "history-consistency":
         # one of the other seven / consistency: recompute the table entry against the top value
